@@ -664,6 +664,17 @@ XRead(a, s) ==
        IF \E j \in 1..Len(line) : line[j] = "\\" THEN Bad(s, "read of a backslash")
        ELSE [SetVar(s, a[1][1], Str(v)) EXCEPT !.inp = rest, !.eof = @ \/ k = 0, !.st = IF k = 0 THEN 1 ELSE 0]
 
+\* `IFS= read -r NAME`: no field splitting and no backslash processing, the variable receives the whole line
+RawLitWord(v) == [k |-> "Word", Parts |-> <<[k |-> "Lit", Value |-> v]>>]
+RawReadCmd(nm) == [k |-> "CallExpr", Assigns |-> <<[k |-> "Assign", Name |-> [k |-> "Lit", Value |-> "IFS"]]>>,
+                   Args |-> <<RawLitWord(W_read), RawLitWord(<<"-", "r">>), RawLitWord(nm)>>]
+IsRawRead(c) == \E nm \in {<<"l">>, <<"x">>} : c = RawReadCmd(nm)
+XReadRaw(nm, s) ==
+  LET k == FirstNL(s.inp)
+      line == IF k = 0 THEN s.inp ELSE SubSeq(s.inp, 1, k - 1)
+      rest == IF k = 0 THEN <<>> ELSE SubSeq(s.inp, k + 1, Len(s.inp)) IN
+  [SetVar(s, nm[1], Str(line)) EXCEPT !.inp = rest, !.eof = @ \/ k = 0, !.st = IF k = 0 THEN 1 ELSE 0]
+
 CountArg(a, s) ==     \* optional numeric argument of exit/return/break/continue/shift: [ok, n]
   IF a = <<>> THEN [ok |-> TRUE, given |-> FALSE, n |-> 0]
   ELSE IF Len(a) = 1 /\ IsNum(a[1]) /\ Len(a[1]) <= 4 THEN [ok |-> TRUE, given |-> TRUE, n |-> NumVal(a[1])]
@@ -760,7 +771,9 @@ XCall(c, s) ==
   IF ~Has(c, "Args") THEN
        LET r == XAssigns(c.Assigns, 1, [s EXCEPT !.cs = 0 - 1], FALSE) IN
        IF ~Live(r) THEN r ELSE St(r, IF r.cs >= 0 THEN r.cs ELSE 0)
-  ELSE IF Has(c, "Assigns") THEN Bad(s, "temporary environment")
+  ELSE IF Has(c, "Assigns") THEN
+       \* the one temporary environment in the model: `IFS= read -r NAME` takes the line as it is
+       IF IsRawRead(c) THEN XReadRaw(c.Args[3].Parts[1].Value, s) ELSE Bad(s, "temporary environment")
   ELSE LET e == XWords(c.Args, 1, [s EXCEPT !.cs = 0 - 1]) IN
        IF ~Live(e.s) THEN e.s
        ELSE IF e.f = <<>> THEN St(e.s, IF e.s.cs >= 0 THEN e.s.cs ELSE 0)
@@ -1016,7 +1029,7 @@ DWord(p, d, inF) ==
 
 \* ---- commands (each menu entry is a statement)
 NLeaf == 36
-NCmd  == 60
+NCmd  == 61
 EchoQ(pre, nm) == SCall(<<LW(W_echo), Wd(<<DQ(<<Lit(pre), PES(nm)>>)>>)>>)     \* echo "pre$nm"
 TrapT == <<"e", "c", "h", "o", " ", "T", "$", "?">>
 TrapE == <<"e", "c", "h", "o", " ", "E", "$", "?">>
@@ -1181,6 +1194,13 @@ DCmdK(c, p, d, inF) ==
                        ("Redirs" :> <<[k |-> "Redirect", Op |-> "<<", Word |-> LW(<<"E", "O", "F">>), Hdoc |-> HdocT]>>),
                      <<"while", SP, "read", SP, "l", SEP, "do", SP, "echo", SP, "\"r$l\"", SEP>> \o s.r \o
                      <<"done", SP, "<<", "EOF", "<HDOC>", "p $x\nq", "EOF">>)
+
+    [] c = 60 ->      \* while IFS= read -r l; do echo "r$l"; done <<-EOF : a body line of blanks only must stay as it is
+                 leaf(Stm([k |-> "WhileClause", Cond |-> <<Stm(RawReadCmd(<<"l">>))>>, Do |-> <<EchoQ(<<"r">>, "l")>>]) @@
+                       ("Redirs" :> <<[k |-> "Redirect", Op |-> "<<-", Word |-> LW(<<"E", "O", "F">>),
+                                       Hdoc |-> LW(<<"p", NL, " ", " ", NL, "q", NL>>)]>>),
+                      <<"while", SP, "IFS=", SP, "read", SP, "-r", SP, "l", SEP, "do", SP, "echo", SP, "\"r$l\"", SEP,
+                        "done", SP, "<<-", "EOF", "<HDOC>", "\tp\n\t  \n\tq", "EOF">>)
 
     [] c = 54 -> LET a0 == DCmd(p, d - 1, inF)         \* { if true; then S & fi; wait; echo "w$?"; }
                      a == IF a0.t.Cmd.k = "FuncDecl" \/ Has(a0.t, "Negated") \/ Has(a0.t, "Redirs") THEN [t |-> Stm(Blk(<<a0.t>>)), r |-> <<"{", SP>> \o a0.r \o <<SEP, "}">>]
